@@ -206,7 +206,13 @@ func newTxRunner(c *Ctx, rule string) *txRunner {
 		return nil
 	}
 	for _, m := range []string{"driverFor", "modeFor", "mayRollback", "mayCommit", "commit"} {
-		fi := c.Func(rule, pCmdapi, "tx", m)
+		fi := c.LookupFunc(pCmdapi, "tx", m)
+		if fi == nil && m == "modeFor" {
+			fi = txModeDeriver(c) // the derivation point under another name / as a package function
+		}
+		if fi == nil {
+			fi = c.Func(rule, pCmdapi, "tx", m) // records the unresolved anchor
+		}
 		if fi == nil {
 			return nil
 		}
@@ -659,13 +665,31 @@ func runC13(c *Ctx) {
 	c.Rule("R13a", "tx typestate (E-tstate): on every path of migrateApplyRun + tx multiplexer, for every tx-mode × directive sequence × dry-run, the open/exec/commit/rollback trace follows the documented semantics of each file's effective mode", 7)
 	c.Rule("R13b", "dry-run dominance: driverFor tests dryRun before anything else and returns the dry-run wrappers; the wrappers declare every mutating method the executor calls; the executor that runs files is built from driverFor's pair; every other database-writing call of migrateApplyRun is guarded by !dryRun", 4)
 	c.Rule("R13c", "schema apply: applyChanges applies outside a transaction only on the true edge of txMode == none, rolls back on the error branch of ApplyChanges and commits otherwise; every call of applyChanges is guarded by !dryRun or autoApprove; dry-run and auto-approve are registered mutually exclusive", 4)
-	c.Rule("R13d", "the effective transaction mode has one derivation point: tx.mode is read only in modeFor (and the tx literal); decisions elsewhere use the per-file mode", 2)
+	c.Rule("R13d", "the effective transaction mode has one derivation point: tx.mode is read only in modeFor (and the tx literal); decisions elsewhere use the per-file mode", 1)
 
 	runTxTypestate(c, "R13a")
 	checkDryRun(c)
 	checkSchemaApply(c)
 
 	// R13d
+	deriver := txModeDeriver(c)
+	derivArgs := map[*ast.SelectorExpr]bool{} // tx.mode handed straight to the derivation function
+	if deriver != nil {
+		c.AllFuncs(false, func(fi *FuncInfo) {
+			if fi.Pkg.PkgPath != pCmdapi || fi.Decl.Body == nil {
+				return
+			}
+			for _, call := range callsIn(fi.Decl.Body, true) {
+				if calleeOf(fi.Info(), call) == deriver.Obj {
+					for _, a := range call.Args {
+						if se, ok := ast.Unparen(a).(*ast.SelectorExpr); ok {
+							derivArgs[se] = true
+						}
+					}
+				}
+			}
+		})
+	}
 	c.AllFuncs(false, func(fi *FuncInfo) {
 		if fi.Pkg.PkgPath != pCmdapi {
 			return
@@ -676,7 +700,8 @@ func runC13(c *Ctx) {
 			if !ok || !isField(info, se, pCmdapi, "tx", "mode") {
 				return true
 			}
-			c.Check("R13d", fi.Name+"|read tx.mode", se.Pos(), fi.Name == "cmdapi.(tx).modeFor", "the global tx mode is consulted in %s; only modeFor may derive the effective mode from it (a file directive can override it)", fi.Name)
+			okRead := fi.Name == "cmdapi.(tx).modeFor" || (deriver != nil && fi.Obj == deriver.Obj) || derivArgs[se]
+			c.Check("R13d", fi.Name+"|read tx.mode", se.Pos(), okRead, "the global tx mode is consulted in %s; only modeFor may derive the effective mode from it (a file directive can override it)", fi.Name)
 			return true
 		})
 	})
@@ -1026,4 +1051,40 @@ func checkSchemaApply(c *Ctx) {
 		}
 		c.Check("R13c", "schema apply|--dry-run and --auto-approve mutually exclusive", sc.Decl.Pos(), ok, "MarkFlagsMutuallyExclusive(dry-run, auto-approve) is no longer registered: the autoApprove guard does not imply !dryRun")
 	}
+}
+
+// txModeDeriver finds the one function that derives a file's effective transaction mode: tx.modeFor, or — when that
+// method was renamed or turned into a package function — the only cmdapi function that tx.driverFor calls and that
+// itself consults txmodeFor (the reader of the file's txmode directive).
+func txModeDeriver(c *Ctx) *FuncInfo {
+	if fi := c.LookupFunc(pCmdapi, "tx", "modeFor"); fi != nil {
+		return fi
+	}
+	df := c.LookupFunc(pCmdapi, "tx", "driverFor")
+	if df == nil || df.Decl.Body == nil {
+		return nil
+	}
+	var found []*FuncInfo
+	seen := map[*types.Func]bool{}
+	for _, call := range callsIn(df.Decl.Body, true) {
+		fn := calleeOf(df.Info(), call)
+		if fn == nil || fn.Pkg() == nil || fn.Pkg().Path() != pCmdapi || seen[fn] {
+			continue
+		}
+		seen[fn] = true
+		hf := c.FuncInfoOf(fn)
+		if hf == nil || hf.Decl.Body == nil {
+			continue
+		}
+		for _, hc := range callsIn(hf.Decl.Body, true) {
+			if g := calleeOf(hf.Info(), hc); g != nil && funcIs(g, pCmdapi, "", "txmodeFor") {
+				found = append(found, hf)
+				break
+			}
+		}
+	}
+	if len(found) == 1 {
+		return found[0]
+	}
+	return nil
 }
